@@ -20,9 +20,12 @@ CONC = drv("conc", ["props/conc.cpp"], ldflags="-lrapidcheck" + LOCKWRAPS)
 CONC_TSAN = drv("conc_tsan", ["props/conc.cpp"], flavour="tsan", ldflags="-lrapidcheck" + LOCKWRAPS)
 ALLOCFAIL = drv("allocfail", ["props/allocfail.cpp"])
 WRAPS = " -Wl,--wrap=lrtr_get_monotonic_time,--wrap=sleep,--wrap=lrtr_dbg"
-CONV = drv("conv", ["props/conv.cpp", "engine/convsim.cpp"], ldflags="-lrapidcheck" + WRAPS,
+CONV = drv("conv", ["props/conv.cpp", "engine/convsim.cpp"], ldflags="-lrapidcheck" + WRAPS + LOCKWRAPS,
            deps=["engine/convsim.hpp", "engine/convsim_model.inc", "engine/convsim_mock.inc", "engine/convsim_run.inc", "engine/judge.hpp",
-                 "engine/cache.hpp", "engine/script.hpp", "engine/wire.hpp"])
+                 "engine/cache.hpp", "engine/script.hpp", "engine/wire.hpp", "engine/convsim_battery.inc"])
+
+CONV_GEN = "rapidcheck generates conversations for the simulator (engine/): a configuration (valid refresh/expire/retry, one of 4 interval modes, session id, serial base incl. values around 2^31 and 2^32-1, initial cache data, records of a second cache) and 0..14 steps, one per query the client completes. A step scripts: failing open() calls and time consumed in open(); how the query write behaves (whole / 1-3 byte partial writes / error / would-block / interrupted / partial-then-error); 0..2 data-version advances of the cache (toggles over a universe of 24 nested IPv4, 16 nested IPv6 records and 12 router keys, optional 120/230 bulk records), cache restarts; the response kind (correct / Cache Reset / Error Report with any code, version byte, text, encapsulated PDU, also mid-payload / no answer / one of 15 mutations of a correct response incl. a second mutation / version-0 answer / hostile-but-well-formed fields / raw bytes); recv chunking (whole, 1-byte, irregular, 7-byte); and what happens when the client waits on an empty connection (timeout, EINTR, hang-up, transport error, Serial Notify, stop+restart of the socket). After the last step the cache answers honestly. The real state machine (rtr_start -> rtr_fsm_start) runs on the mock transport with a simulated clock; an independent strict decoder + protocol model ('judge') decides what a correct client must conclude. "
+CONV_A = ['the mock transport obeys the transport contract (never 0 bytes, never more than asked, errors as tcp_transport returns them)', 'clock = lrtr_get_monotonic_time and sleep() replaced at link time (--wrap); one FSM thread does all the work, so a run is a deterministic function of its script', 'the judge (engine/judge.hpp) is a correct reading of RFC 8210 framing and of the property statements; where the statement leaves room the weaker reading is used (DESIGN.md §10)']
 
 ENGINES = [
     {"name": "rapidcheck-drivers", "path": "props/", "serves_properties": ["C01", "C02", "C09", "C10", "C11", "C12", "C15", "C16", "C18", "C19", "C20"],
@@ -191,7 +194,7 @@ CHECKS = {
         "floor": {"quick": 40, "thorough": 400},
         "technique": 'fault-schedule generation (rapidcheck) + bounded-time convergence oracle under a simulated clock',
         "level_text": 'Liveness decided as bounded-time convergence after a finite generated fault prefix; sampled over fault schedules.',
-        "level_note": "Hitting the 150000-call step cap is counted as inconclusive, never as a violation. In conversations that went 'weak' (hostile payload) only termination is required.",
+        "level_note": "Hitting the 80000-call step cap is counted as inconclusive, never as a violation. In conversations that went 'weak' (hostile payload) only termination is required.",
         "stages": [{"driver": CONV,
                     "quick": {"procs": 8, "rc": (500, 100)},
                     "thorough": {"procs": 16, "rc": (15000, 100), "timeout": 7200}}],
@@ -322,5 +325,22 @@ CHECKS = {
         "stages": [{"driver": ALLOCFAIL,
                     "quick": {"procs": 8, "rc": (60, 60)},
                     "thorough": {"procs": 16, "rc": (4000, 100), "timeout": 7200}}],
+    },
+    "C06": {
+        "level": "exploration",
+        "engine": "convsim + rapidcheck",
+        "rule": CONV_GEN + "Oracle C06 (reader battery): whenever a full reload runs over existing data (Reset Query while the socket holds records), a battery of 80 route validations and 15 router-key lookups covering every record of the universe "
+                "is evaluated in place inside every transport call, inside every update callback issued without a table lock, and at every point where the synchronising thread has just released a lock of a live table (rwlock calls wrapped) — i.e. at every table state a "
+                "single-call reader can observe. Per table, the sequence of distinct answers between the Reset Query and the end of the exchange must have at most two elements (complete old set, then complete final set): a third state (empty, half loaded, new-then-old) is a violation. "
+                "non-trivial = a conversation in which a reload replaced a table's visible contents in exactly one step; distinct by hash of the script.",
+        "assumptions": CONV_A + ["readers hold the read lock for a whole call, so the states observable by a reader are those that exist when the synchronising thread holds no write lock (that all mutations happen under the lock is C16's TSan stage)",
+                                  "cross-table order (prefix table vs router-key table) is not constrained: the two swaps are separate critical sections"],
+        "floor": {"quick": 20, "thorough": 200},
+        "technique": "model-free history invariant over every reader-observable state during generated reloads (lock-release-point enumeration in the conversation simulator)",
+        "level_text": "Exhaustive, per generated reload, over the table states a reader can observe (transport calls, callbacks, lock releases); reloads and data sets are sampled by rapidcheck.",
+        "level_note": "Deterministic single-threaded observation; real reader threads against a reload are not run here (lock discipline is examined by C16).",
+        "stages": [{"driver": CONV,
+                    "quick": {"procs": 8, "rc": (300, 100)},
+                    "thorough": {"procs": 16, "rc": (10000, 100), "timeout": 7200}}],
     },
 }
